@@ -97,6 +97,14 @@ func (c *LRUCache) Remove(key string) {
 	c.cache.Remove(key)
 }
 
+// Clear removes all contents from the cache. OnEvicted callback will be called for each content
+// when nobody refers to it.
+func (c *LRUCache) Clear() {
+	c.mu.Lock()
+	defer c.mu.Unlock()
+	c.cache.Clear()
+}
+
 func (c *LRUCache) decreaseOnceFunc(rc *refCounter) func() {
 	var once sync.Once
 	return func() {
